@@ -1,7 +1,12 @@
 """C12 — front end.  Theorems: lean/GoluaVerif/Props/C12.lean (parse_render, decode_escape, long_bracket …)
 over Spec.Grammar / Model.ParseExp / Model.Literal / Spec.Literal.  Correspondence (harness cmd/c12 drives the
 real scanner, parser and ast literal decoding):
-  exp    expression trees × spellings: golua's AST vs the generator's tree (level A) and vs Model.ParseExp on
+  eval   the same trees with numeric-literal leaves: the VALUE golua computes for `return <e>` vs the value of the
+         intended tree (oracle: Spec.Num semantics through the C02 oracle functions, exact powers)
+  mv     expression lists of every shape (single / multi-valued / parenthesised multi-valued) in every position
+         (return, arguments, table fields, assignment, local, for-in): number of values vs Spec.Grammar.explistCount
+  numeral  numeric literals (c02 harness, literal leg) vs Spec.Numeral.literal
+  exp    expression trees × spellings (leaves: names, every primary-expression form, numeric literals): golua's AST vs the generator's tree (level A) and vs Model.ParseExp on
          the same token list (level B); the token list itself is re-derived by Spec.Grammar.render in the oracle
   short/long  literal texts: golua's decoded value vs Model.Literal.decodeShort / decodeLong
   esc    byte strings spelled by Spec.Literal.escape (the function of theorem decode_escape): golua's value vs the bytes
@@ -30,8 +35,8 @@ def tree_levels(code):
 
 
 def run_pairs(ctx, lines):
-    """lines of kinds exp / short / long from the harness -> compare with the oracle"""
-    stripped = [l.split("|")[0] if l.startswith("exp ") else l for l in lines]
+    """lines of kinds exp / eval / mv / short / long from the harness -> compare with the oracle"""
+    stripped = [l.split("|")[0] if l.startswith(("exp ", "eval ", "mv ")) else l for l in lines]
     exp = common.run_oracle("c12", stripped)
     if len(exp) != len(lines):
         raise common.BuildError("oracle returned %d lines for %d inputs" % (len(exp), len(lines)))
@@ -59,6 +64,33 @@ def run_pairs(ctx, lines):
                 ctx.violation("exp " + q(src),
                               "%s: golua parses %s as %s, the grammar (and Model.ParseExp) give %s" % (what, q(src), res, intended),
                               "c12 replay %s s%s\nobserved %s\nexpected %s\n" % ("retsrc" if mode == "c" else "expsrc", srchex, res, intended))
+        elif kind == "eval":
+            res, srchex = parts[-1].split("|")
+            src = bytes.fromhex(srchex)
+            if e == "?":
+                ctx.count("eval:undecided")  # inexact power / float formatting: the oracle does not answer
+                continue
+            if res.startswith("f") and res != "fnan":
+                bits = int(res[1:], 16)
+                if (bits >> 52) & 0x7FF == 0x7FF and bits & ((1 << 52) - 1):
+                    res = "fnan"
+            intended = parts[1].replace("'", "")
+            ctx.case("eval " + srchex, len(tree_levels(intended)) >= 2)
+            ctx.count("eval:" + ("error" if e == "E" else "value"))
+            if res != e:
+                ctx.violation("eval " + q(src),
+                              "`return %s` evaluates to %s in golua; the tree %s the grammar assigns to this spelling has the value %s "
+                              "(leaves %s)" % (src.decode("latin1"), res, intended, e, parts[2]),
+                              "c12 replay evalsrc s%s\nobserved %s\nexpected %s\n" % (srchex, res, e))
+        elif kind == "mv":
+            res, cname, form, srchex = parts[-1].split("|")
+            ctx.case("mv %s %s %s" % (cname, form, parts[2]), "," in parts[2] or parts[2].startswith("p"))
+            ctx.count("mv:" + cname)
+            if res != e:
+                ctx.violation("mv %s %s %s" % (cname, form, parts[2]),
+                              "expression list of shape %s (%s, context %s) delivers %s value(s) in golua; the manual's adjustment "
+                              "rule (Spec.Grammar.explistCount) gives %s" % (parts[2], form, cname, res, e),
+                              "c12 replay run s%s\nobserved %s\nexpected %s\n" % (srchex, res, e))
         else:
             lit = bytes.fromhex(parts[1][1:])
             got = parts[-1]
@@ -68,6 +100,49 @@ def run_pairs(ctx, lines):
                 ctx.violation("%s %s" % (kind, q(lit)),
                               "golua decodes the literal %s as %s, Model.Literal gives %s" % (q(lit), got, e),
                               "c12 replay %s %s\nobserved %s\nexpected %s\n" % (kind, parts[1], got, e))
+
+
+def run_mvast(ctx, lines):
+    """AST marking of multi-valued items in a return list: unparenthesised call / `...` (FunctionCall, Etc) vs
+    parenthesised (BFunctionCall, BEtc)"""
+    for line in lines:
+        _, shape, _, rest = line.split(" ")
+        got, form, srchex = rest.split("|")
+        want = ",".join(x[0] for x in shape.split(","))
+        ctx.case("mvast %s %s" % (form, shape), True)
+        ctx.count("mvast")
+        if got != want:
+            src = bytes.fromhex(srchex)
+            ctx.violation("mvast %s %s" % (form, shape),
+                          "AST of %s marks its items %s, expected %s (m = multi-valued node, p = truncating node, s = single)" % (q(src), got, want),
+                          "c12 replay chunk ok mvast s%s\nobserved %s\nexpected %s\n" % (srchex, got, want))
+
+
+def run_literals(ctx):
+    """numeric LITERALS (part of this property's statement): the c02 harness' numeral strings, literal leg only,
+    against Spec.Numeral.literal (oracle mode c02)"""
+    h = common.build_go("c02", "cmd/c02")
+    rc, out, err = common.run_harness(h, ["strings", ctx.tier])
+    if rc != 0:
+        raise common.BuildError("c02 harness (strings) failed: " + err[-2000:])
+    lines = [l for l in out.split("\n") if l.startswith("literal ")]
+    exp = common.run_oracle("c02", lines)
+    if len(exp) != len(lines):
+        raise common.BuildError("oracle c02 returned %d lines for %d inputs" % (len(exp), len(lines)))
+    for line, e in zip(lines, exp):
+        parts = line.split(" ")
+        if e == "?":
+            ctx.count("numeral:undecided")
+            continue
+        got = parts[-1]
+        lit = bytes.fromhex(parts[1][1:])
+        ctx.case("numeral " + parts[1], not lit.isdigit() or len(lit) >= 16)
+        ctx.count("numeral:" + ("malformed" if e == "E" else "int" if e.startswith("i") else "float"))
+        if got != e:
+            ctx.violation("literal " + q(lit),
+                          "the chunk `return %s` gives %s in golua, Lua 5.4 (Spec.Numeral.literal) prescribes %s" % (lit.decode("latin1"), got, e),
+                          "c12 replay numeral %s\nobserved %s\nexpected %s\n" % (parts[1], got, e))
+    ctx.sample(lines[len(lines) // 2] if lines else "(no literal lines)")
 
 
 def run_chunks(ctx, lines):
@@ -165,11 +240,13 @@ def run(ctx):
     if rc != 0:
         raise common.BuildError("c12 harness failed: " + err[-2000:])
     lines = out.split("\n")[:-1]
-    pairs = [l for l in lines if not l.startswith("chunk ")]
+    pairs = [l for l in lines if not l.startswith(("chunk ", "mvast "))]
     chunks = [l for l in lines if l.startswith("chunk ")]
     run_pairs(ctx, pairs)
     run_chunks(ctx, chunks)
+    run_mvast(ctx, [l for l in lines if l.startswith("mvast ")])
     run_escape(ctx, h)
+    run_literals(ctx)
     for l in pairs[:: max(1, len(pairs) // 8)][:8] + chunks[:: max(1, len(chunks) // 3)][:3]:
         ctx.sample(l[:300])
     ctx.extra["harness_lines"] = len(lines)
@@ -179,7 +256,12 @@ def replay(ctx, path):
     h = common.build_go("c12", "cmd/c12")
     common.build_oracle()
     for line in open(path):
-        if line.startswith("c12 replay "):
+        if line.startswith("c12 replay numeral "):
+            h2 = common.build_go("c02", "cmd/c02")
+            rc, out, err = common.run_harness(h2, ["replay", "literal", line.split()[3]])
+            print(out.strip())
+            print("expected", common.run_oracle("c02", [out.strip()])[0])
+        elif line.startswith("c12 replay "):
             f = line.split()[2:]
             rc, out, err = common.run_harness(h, ["stdin"], input=" ".join(f) + "\n")
             print(out.strip())
